@@ -166,6 +166,8 @@ def zbool(x):
             return z3.BoolVal(bool(x))
     except ImportError:
         pass
+    if getattr(x, 'shape', None) == () and hasattr(x, '_d'):
+        return zbool(x._d[0])         # 0-d nplite array (what a ufunc of a 0-d array returns)
     raise TypeError('not a boolean: %r' % (x,))
 
 
